@@ -4,6 +4,7 @@ use serde_json::Value as J;
 pub mod c01;
 pub mod c03;
 pub mod c05;
+pub mod c06;
 pub mod c07;
 pub mod c08;
 pub mod c10;
@@ -26,6 +27,7 @@ pub fn all() -> Vec<Property> {
         Property { id: "C01", run: c01::run, replay: c01::replay },
         Property { id: "C03", run: c03::run, replay: c03::replay },
         Property { id: "C05", run: c05::run, replay: c05::replay },
+        Property { id: "C06", run: c06::run, replay: c06::replay },
         Property { id: "C07", run: c07::run, replay: c07::replay },
         Property { id: "C08", run: c08::run, replay: c08::replay },
         Property { id: "C10", run: c10::run, replay: c10::replay },
